@@ -674,6 +674,9 @@ def clause_for(expr, env, tags, brush, bash):
             return "space_next_to_subscript_bracket_rejected"
     if bash_err and not brush_err and "attempted assignment to non-variable" in berr:
         return "assignment_as_operand_accepted"
+    if bash_err and any(re.search(r"[-+*/%<>&|^!~:]\s*[A-Za-z_]\w*(\[[^\]]*\])?\s*([-+*/%&|^]|<<|>>)?=(?!=)", t) for t in texts):
+        # `7 / b = 1`: bash fails (its own way) before or at the `=`; brush evaluates 7 / (b = 1)
+        return "assignment_as_operand_accepted"
     if bash_err and not brush_err and bash[0] == "e other" and \
             any(re.search(r"[\w\])]\s*(--|\+\+)\s*((--|\+\+)\s*)?[\w(]", t) for t in texts):
         # `x -- -- a`, `A[5] -- ++ B[5]`: brush splits a ++/-- standing between two operands into two signs
@@ -693,6 +696,11 @@ def differs(expr, env, b, o):
     if b[0] == "<missing>" or o[0] == "<missing>":
         return (b[0] != o[0]), None
     be, oe = b[0].startswith("e "), o[0].startswith("e ")
+    if oe and o[0] == "e negexp" and (b[0], b[1]) != (o[0], o[1]):
+        # bash 5.2 raises "exponent less than 0" even in a branch it does not evaluate (exppower ignores noeval);
+        # the property demands short-circuit evaluation, so bash is not the reference here.
+        if any("**" in t for t in [expr] + list(env.values())) and re.search(r"&&|\|\||\?", " ".join([expr] + list(env.values()))):
+            return False, "negative_exponent_in_unevaluated_branch"
     if be and oe:
         # both report an error.  bash evaluates while it parses, brush parses first: after a *syntax* error the
         # variables assigned before the error point may differ, and which error comes first may differ.
@@ -700,11 +708,6 @@ def differs(expr, env, b, o):
             return (b[1] != o[1]), None
         if "e other" in (b[0], o[0]):
             return False, None
-    if oe and o[0] == "e negexp" and b[0] != o[0]:
-        # bash 5.2 raises "exponent less than 0" even in a branch it does not evaluate (exppower ignores noeval);
-        # the property demands short-circuit evaluation, so bash is not the reference here.
-        if any("**" in t for t in [expr] + list(env.values())) and re.search(r"&&|\|\||\?", " ".join([expr] + list(env.values()))):
-            return False, "negative_exponent_in_unevaluated_branch"
     if be and oe:
         return True, None
     return (b[0], b[1]) != (o[0], o[1]), None
